@@ -19,6 +19,14 @@
 (* paths (both FALSE = the repaired algorithm):                                      *)
 (*   none_overrides    `ProxyCommand none` is stored unconditionally while parsing,   *)
 (*                     replacing an earlier ProxyCommand of the SAME block            *)
+(*   snapshot_filter   (seeded design error, never the code) a later block's IdentityFile  *)
+(*                     values are filtered against the list as it was BEFORE that block,    *)
+(*                     so a repeat inside the later block gets through                      *)
+(*   keep_block_repeats  parse keeps an IdentityFile value repeated inside one block; the    *)
+(*                     first contributing block's list is copied as is (value[:]), so such   *)
+(*                     a repeat survives there - later blocks are filtered value by value    *)
+(*                     against the growing list.  TRUE = the code; OpenSSH itself never       *)
+(*                     registers a duplicate (add_identity_file), see StrictFirstBlock         *)
 (*   h_in_dict_order   _expand_variables walks the result dict in insertion order and  *)
 (*                     substitutes %h with whatever `hostname` holds at that moment:    *)
 (*                     still unexpanded if HostName was obtained after that key         *)
@@ -30,7 +38,9 @@ CONSTANTS Headers,      \* model checking: set of block headers [kind, pats, cri
           HostNames,    \* model checking: set of looked-up host names (Seq(char))
           MaxBlocks,    \* model checking: explicit blocks per config
           Env,          \* [luser, home, lhost, fqdn : Seq(char)] - the local machine
-          PinNone, PinOrder   \* model checking: the fx the walk uses
+          PinNone, PinOrder, PinSnapshot, KeepRepeats,   \* model checking: the fx the walk uses
+          StrictFirstBlock    \* TRUE: "without duplicates" is demanded of the whole final list (OpenSSH);
+                              \* FALSE: also accepted: the first contributing block's own list taken as written
 
 Range(s) == {s[i] : i \in 1..Len(s)}
 RECURSIVE Flatten(_)
@@ -79,7 +89,9 @@ AddLine(d, ln, fx) ==
     IF ln.k = "proxycommand" /\ ln.none
     THEN (IF fx.none_overrides \/ ~Has(d, ln.k) THEN Put(d, ln.k, <<NoneVal>>) ELSE d)
     ELSE IF ln.k \in ListKeys
-    THEN (IF Has(d, ln.k) THEN Put(d, ln.k, Append(Get(d, ln.k), ln.v)) ELSE Append(d, [k |-> ln.k, vals |-> <<ln.v>>]))
+    THEN (IF ~Has(d, ln.k) THEN Append(d, [k |-> ln.k, vals |-> <<ln.v>>])
+          ELSE IF ~fx.keep_block_repeats /\ ln.v \in Range(Get(d, ln.k)) THEN d
+          ELSE Put(d, ln.k, Append(Get(d, ln.k), ln.v)))
     ELSE IF Has(d, ln.k) THEN d ELSE Append(d, [k |-> ln.k, vals |-> <<ln.v>>])
 RECURSIVE BlockDictFrom(_, _, _)
 BlockDictFrom(body, d, fx) == IF body = <<>> THEN d ELSE BlockDictFrom(Tail(body), AddLine(d, Head(body), fx), fx)
@@ -105,12 +117,18 @@ Applies(b, host, opts, final, env) ==
 RECURSIVE ExtendNew(_, _)
 ExtendNew(acc, vals) == IF vals = <<>> THEN acc
                         ELSE ExtendNew(IF Head(vals) \in Range(acc) THEN acc ELSE Append(acc, Head(vals)), Tail(vals))
-MergeEntry(opts, e) == IF ~Has(opts, e.k) THEN Append(opts, e)
-                       ELSE IF e.k = "identityfile" THEN Put(opts, e.k, ExtendNew(Get(opts, e.k), e.vals))
-                       ELSE opts
-RECURSIVE Merge(_, _)
-Merge(opts, d) == IF d = <<>> THEN opts ELSE Merge(MergeEntry(opts, Head(d)), Tail(d))
-Visit(opts, b, host, final, env, fx) == IF Applies(b, host, opts, final, env) THEN Merge(opts, BlockDict(b, fx)) ELSE opts
+\* (seeded error) the candidates are all tested against the list as it was before this block
+ExtendSnapshot(acc, vals) == acc \o SelectSeq(vals, LAMBDA x : x \notin Range(acc))
+\* the first block that has the key hands over its list as it is (value[:]); later IdentityFile lists are
+\* added value by value unless already there (list.extend over a generator that looks at the growing list)
+MergeEntry(opts, e, fx) ==
+    IF ~Has(opts, e.k) THEN Append(opts, e)
+    ELSE IF e.k = "identityfile"
+         THEN Put(opts, e.k, IF fx.snapshot_filter THEN ExtendSnapshot(Get(opts, e.k), e.vals) ELSE ExtendNew(Get(opts, e.k), e.vals))
+         ELSE opts
+RECURSIVE Merge(_, _, _)
+Merge(opts, d, fx) == IF d = <<>> THEN opts ELSE Merge(MergeEntry(opts, Head(d), fx), Tail(d), fx)
+Visit(opts, b, host, final, env, fx) == IF Applies(b, host, opts, final, env) THEN Merge(opts, BlockDict(b, fx), fx) ELSE opts
 RECURSIVE Pass(_, _, _, _, _, _, _)
 Pass(cfg, i, opts, host, final, env, fx) ==
     IF i > Len(cfg) THEN opts
@@ -168,54 +186,64 @@ App1(cfg, host, env, fx)   == AppVec(cfg, 1, <<>>, host, FALSE, env, fx)
 App2(cfg, host, env, fx)   == AppVec(cfg, 1, Pass1(cfg, host, env, fx), host, TRUE, env, fx)
 
 (* ---- the statement of C40, declaratively -------------------------------------- *)
-Good == [none_overrides |-> FALSE, h_in_dict_order |-> FALSE]
+Good == [none_overrides |-> FALSE, h_in_dict_order |-> FALSE, snapshot_filter |-> FALSE, keep_block_repeats |-> FALSE]
+Lax  == [Good EXCEPT !.keep_block_repeats = TRUE]      \* blocks parsed with their IdentityFile lists as written
 \* a config/host pair is unambiguous when every block applies in both passes or in neither,
 \* except `Match final` blocks, which by definition apply in the final pass only (Appendix F)
 HasFinal(b) == b.kind = "match" /\ \E i \in 1..Len(b.crit) : b.crit[i].type = "final"
 StableFrom(a1, a2, cfg) == \A i \in 1..Len(cfg) : HasFinal(cfg[i]) \/ a1[i] = a2[i]
 Stable(cfg, host, env) == StableFrom(App1(cfg, host, env, Good), App2(cfg, host, env, Good), cfg)
-\* the dictionaries of all blocks, parsed once (ds[i] = BlockDict(cfg[i], Good)), as a plain tuple
+\* the dictionaries of all blocks, parsed once (ds[i] = BlockDict(cfg[i], fx)), as a plain tuple.  The
+\* declarative definitions below read them with IdentityFile lists as written (Lax)
 RECURSIVE DictsFrom(_, _, _)
 DictsFrom(cfg, i, fx) == IF i > Len(cfg) THEN <<>> ELSE <<BlockDict(cfg[i], fx)>> \o DictsFrom(cfg, i + 1, fx)
 DictsFx(cfg, fx) == DictsFrom(cfg, 1, fx)
-Dicts(cfg) == DictsFx(cfg, Good)
+Dicts(cfg) == DictsFx(cfg, Lax)
 \* both passes in one go over pre-parsed blocks: which blocks applied in each pass, and the unexpanded result.
 \* Same values as App1 / App2 / Pass2 (invariant PartsAgree); the trace spec uses this form because it walks
 \* every block twice instead of seven times per lookup.
-RECURSIVE WalkD(_, _, _, _, _, _, _, _)
-WalkD(cfg, ds, i, opts, app, host, final, env) ==
+RECURSIVE WalkD(_, _, _, _, _, _, _, _, _)
+WalkD(cfg, ds, i, opts, app, host, final, env, fx) ==
     IF i > Len(cfg) THEN [opts |-> opts, app |-> app]
     ELSE LET yes == Applies(cfg[i], host, opts, final, env)
-             o   == IF yes THEN Merge(opts, ds[i]) ELSE opts
-         IN  IF Len(o) >= 0 THEN WalkD(cfg, ds, i + 1, o, Append(app, yes), host, final, env) ELSE [opts |-> o, app |-> app]
-LookupParts(cfg, ds, host, env) ==
-    LET w1 == WalkD(cfg, ds, 1, <<>>, <<>>, host, FALSE, env)
-        w2 == WalkD(cfg, ds, 1, InjectHostName(w1.opts, host), <<>>, host, TRUE, env)
+             o   == IF yes THEN Merge(opts, ds[i], fx) ELSE opts
+         IN  IF Len(o) >= 0 THEN WalkD(cfg, ds, i + 1, o, Append(app, yes), host, final, env, fx) ELSE [opts |-> o, app |-> app]
+LookupParts(cfg, ds, host, env, fx) ==
+    LET w1 == WalkD(cfg, ds, 1, <<>>, <<>>, host, FALSE, env, fx)
+        w2 == WalkD(cfg, ds, 1, InjectHostName(w1.opts, host), <<>>, host, TRUE, env, fx)
     IN  [a1 |-> w1.app, a2 |-> w2.app, raw |-> w2.opts]
 \* "the first block in file order that applies": reading A = blocks applying at the end, in file order;
 \* reading B = values obtained in the first pass stay, `Match final` blocks only add (OpenSSH's two passes)
 FirstWith(app, ds, k) ==
     LET S == {i \in 1..Len(ds) : app[i] /\ Has(ds[i], k)}
     IN  IF S = {} THEN 0 ELSE CHOOSE i \in S : \A j \in S : i <= j
-RECURSIVE Accumulate(_, _, _, _, _)
-Accumulate(app, ds, i, k, acc) ==      \* IdentityFile: all applying blocks, in order, without duplicates
+\* IdentityFile: the values of all applying blocks in order of first occurrence, none twice.
+\* lenient = the reading that demands less of a value repeated INSIDE the first contributing block: that
+\* block's list is taken as written, "without duplicates" then governs what accumulates on top of it
+\* (a repeat inside a later block is a duplicate of an accumulated value under either reading)
+RECURSIVE Accumulate(_, _, _, _, _, _)
+Accumulate(app, ds, i, k, acc, lenient) ==
     IF i > Len(ds) THEN acc
-    ELSE Accumulate(app, ds, i + 1, k, IF app[i] /\ Has(ds[i], k) THEN ExtendNew(acc, Get(ds[i], k)) ELSE acc)
+    ELSE Accumulate(app, ds, i + 1, k,
+                    IF ~(app[i] /\ Has(ds[i], k)) THEN acc
+                    ELSE IF lenient /\ acc = <<>> THEN Get(ds[i], k)
+                    ELSE ExtendNew(acc, Get(ds[i], k)), lenient)
 \* a1, a2 = which blocks applied in the first / final pass.  <<>> = option not obtained
-DeclRaw(a1, a2, ds, host, k, twoPass) ==
+DeclRaw(a1, a2, ds, host, k, twoPass, lenient) ==
     LET i1 == FirstWith(a1, ds, k)
         i2 == FirstWith(a2, ds, k)
         pick == IF twoPass /\ i1 # 0 THEN i1 ELSE i2
     IN  IF k \in ListKeys
-        THEN (IF twoPass THEN Accumulate(a2, ds, 1, k, Accumulate(a1, ds, 1, k, <<>>)) ELSE Accumulate(a2, ds, 1, k, <<>>))
+        THEN (IF twoPass THEN Accumulate(a2, ds, 1, k, Accumulate(a1, ds, 1, k, <<>>, lenient), lenient)
+              ELSE Accumulate(a2, ds, 1, k, <<>>, lenient))
         ELSE IF k = "hostname" /\ twoPass /\ i1 = 0 THEN <<host>>   \* the default is set between the passes
         ELSE IF pick = 0 THEN (IF k = "hostname" THEN <<host>> ELSE <<>>)
         ELSE Get(ds[pick], k)
 AllKeysOf(ds) == UNION {KeysOf(ds[i]) : i \in 1..Len(ds)} \cup {"hostname"}
 AllKeys(cfg)  == AllKeysOf(Dicts(cfg))
 \* the value the statement asks for: first obtained, then tokens expanded as documented
-DeclExpanded(a1, a2, ds, host, env, k, twoPass, uRemote) ==
-    LET raw(x) == DeclRaw(a1, a2, ds, host, x, twoPass)
+DeclExpanded(a1, a2, ds, host, env, k, twoPass, uRemote, lenient) ==
+    LET raw(x) == DeclRaw(a1, a2, ds, host, x, twoPass, lenient)
         first(x, dflt) == IF raw(x) = <<>> THEN dflt ELSE Raw(raw(x)[1])
         ruser == first("user", env.luser)
         base  == [h |-> host, n |-> host, p |-> first("port", <<"2", "2">>), r |-> ruser,
@@ -246,7 +274,7 @@ VARIABLES cfg, host,   \* the parsed file and the name looked up
           i,           \* next block
           opts         \* the options dictionary being built
 vars == <<cfg, host, pc, i, opts>>
-Fx == [none_overrides |-> PinNone, h_in_dict_order |-> PinOrder]
+Fx == [none_overrides |-> PinNone, h_in_dict_order |-> PinOrder, snapshot_filter |-> PinSnapshot, keep_block_repeats |-> KeepRepeats]
 
 RECURSIVE Configs(_)
 Configs(n) == IF n = 0 THEN {<<>>}
@@ -279,9 +307,10 @@ FirstObtained ==
                 a2 == App2(cfg, host, Env, Good)
                 ds == Dicts(cfg)
             IN  StableFrom(a1, a2, cfg) =>
-                    \A k \in AllKeysOf(ds) : \/ Result(k) = DeclExpanded(a1, a2, ds, host, Env, k, FALSE, FALSE)
-                                              \/ Result(k) = DeclExpanded(a1, a2, ds, host, Env, k, TRUE, FALSE)
-PartsAgree    == Done => LET pt == LookupParts(cfg, DictsFx(cfg, Fx), host, Env)
+                    \A k \in AllKeysOf(ds) :
+                        \E tp \in BOOLEAN, len \in (IF StrictFirstBlock THEN {FALSE} ELSE BOOLEAN) :
+                            Result(k) = DeclExpanded(a1, a2, ds, host, Env, k, tp, FALSE, len)
+PartsAgree    == Done => LET pt == LookupParts(cfg, DictsFx(cfg, Fx), host, Env, Fx)
                          IN  /\ pt.a1 = App1(cfg, host, Env, Fx) /\ pt.a2 = App2(cfg, host, Env, Fx)
                              /\ pt.raw = Pass2(cfg, host, Env, Fx)
 NoStrayKeys   == Done => KeysOf(opts) \subseteq AllKeys(cfg)
